@@ -7,7 +7,7 @@ OUT=seeded/RESULTS.md; TMP=$(mktemp -d)
 run_seed() { d=$1; id=$(basename $d | cut -d- -f1); n=$(basename $d | cut -d- -f2)
   WT=/tmp/selftest-$id-$n; git -C /repo worktree add --detach $WT HEAD >/dev/null 2>&1 || { echo "$id-$n | worktree-failed" > $2; return; }
   KEY=$(python3 -c "import hashlib,sys; print(hashlib.sha1(sys.argv[1].encode()).hexdigest()[:8])" $WT)
-  if git -C $WT apply $d/patch.diff 2>/dev/null; then
+  if git -C $WT apply /verif/$d/patch.diff 2>/dev/null; then
     q=$(VERIF_REPO=$WT ./check $id --tier quick 2>&1 | grep -c "^VIOLATION")
     r="quick:$([ $q -gt 0 ] && echo caught || echo silent)"
     if [ $q -eq 0 ]; then t=$(VERIF_REPO=$WT ./check $id --tier thorough 2>&1 | grep -c "^VIOLATION"); r="$r thorough:$([ $t -gt 0 ] && echo caught || echo silent)"; fi
@@ -16,6 +16,6 @@ run_seed() { d=$1; id=$(basename $d | cut -d- -f1); n=$(basename $d | cut -d- -f
   git -C /repo worktree remove --force $WT >/dev/null 2>&1; rm -rf .cache/obj_scratch/$KEY .cache/*/harness_*_$KEY
 }
 export -f run_seed
-ls -d seeded/C*-* | xargs -P $J -I{} bash -c 'run_seed {} '$TMP'/$(basename {}).txt'
+ls -d seeded/C*-* | grep -E "${SELFTEST_FILTER:-.}" | xargs -P $J -I{} bash -c 'run_seed {} '$TMP'/$(basename {}).txt'
 { echo "# Self-test of the checks against the kept seeded changes ($(date -u +%FT%TZ), /repo $(git -C /repo rev-parse --short HEAD))"; echo; echo "| seed | result |"; echo "|---|---|"; cat $TMP/*.txt | sort | sed 's/^/| /; s/$/ |/'; } > $OUT
 rm -rf $TMP; git checkout -- evidence 2>/dev/null; cat $OUT | tail -n +3 | grep -vc "quick:caught" | xargs echo "not caught by quick:"
